@@ -142,8 +142,11 @@ class LowerDimExpr:
         return result_value
 
     def _lower_factor(self, factor: DimFactorWithPower) -> ir.Value:
-        if str(factor) in self.compute_cache:
-            return self.compute_cache[str(factor)]
+        # Cache keys are tagged by kind: str() of a (factor, power) pair and of
+        # a (term, coefficient) pair can coincide ("(b, 2)" is both b**2 and 2*b).
+        factor_key = f"factor#{factor}"
+        if factor_key in self.compute_cache:
+            return self.compute_cache[factor_key]
 
         if factor[0].operation is None:
             var_name = factor[0].var
@@ -170,12 +173,13 @@ class LowerDimExpr:
             )
             self._set_metadata(result_value)
 
-        self.compute_cache[str(factor)] = result_value
+        self.compute_cache[factor_key] = result_value
         return result_value
 
     def _lower_term(self, term: DimTermLike) -> ir.Value:
-        if str(term) in self.compute_cache:
-            return self.compute_cache[str(term)]
+        term_key = f"term#{term}"
+        if term_key in self.compute_cache:
+            return self.compute_cache[term_key]
 
         if len(term._factors) == 0:
             result_value = self._get_scalar(1)
@@ -193,12 +197,13 @@ class LowerDimExpr:
                 )
                 self._set_metadata(result_value)
 
-        self.compute_cache[str(term)] = result_value
+        self.compute_cache[term_key] = result_value
         return result_value
 
     def _lower_term_with_mult(self, term: DimTermWithCoeff) -> ir.Value:
-        if str(term) in self.compute_cache:
-            return self.compute_cache[str(term)]
+        term_key = f"term_with_coeff#{term}"
+        if term_key in self.compute_cache:
+            return self.compute_cache[term_key]
 
         if term[0].is_constant and str(term[0]) == "":
             result_value = self._get_scalar(term[1])
@@ -216,15 +221,16 @@ class LowerDimExpr:
                 )
                 self._set_metadata(result_value)
 
-        self.compute_cache[str(term)] = result_value
+        self.compute_cache[term_key] = result_value
         return result_value
 
     def _lower_expr(self, expr: DimExprLike | int) -> ir.Value:
         if isinstance(expr, int):
             return self._get_scalar(expr)
 
-        if str(expr) in self.compute_cache:
-            return self.compute_cache[str(expr)]
+        expr_key = f"expr#{expr}"
+        if expr_key in self.compute_cache:
+            return self.compute_cache[expr_key]
 
         terms: tuple[TermWithMultiplier, ...] = expr._sorted_terms
         result_value = self._lower_term_with_mult(terms[0])
@@ -240,7 +246,7 @@ class LowerDimExpr:
             )
             self._set_metadata(result_value)
 
-        self.compute_cache[str(expr)] = result_value
+        self.compute_cache[expr_key] = result_value
         return result_value
 
     def __call__(self, exprs: list[DimExprLike | int | ir.Value]) -> ir.Value:
